@@ -14,6 +14,7 @@ package random
 //@   safety [C13]
 //
 //@ func (*Random).Select
+//@   perreturn
 //@   requires rdInv(r)
 //@   ensures [C13] (len(r.endpoints) == 0) == (result1 != nil)
 //@   ensures [C13] len(r.endpoints) > 0 ==> (exists j :: 0 <= j && j < len(r.endpoints) && result0 == r.endpoints[j])
